@@ -13,6 +13,8 @@ func factGenFiles() []genFile {
 	return []genFile{
 		{"AsmFacts", genAsmFacts},
 		{"CborConsts", genCborConsts},
+		{"FsstoreFacts", genFsstoreFacts},
+		{"WalkFacts", genWalkFacts},
 	}
 }
 
@@ -40,6 +42,8 @@ func selectorPath(e ast.Expr) string {
 		return "*" + selectorPath(x.X)
 	case *ast.ParenExpr:
 		return selectorPath(x.X)
+	case *ast.BasicLit:
+		return x.Value
 	}
 	return "?"
 }
@@ -248,6 +252,132 @@ func genCborConsts(repo string) string {
 		})
 		sort.Strings(opts)
 		fmt.Fprintf(&sb, "/-- generated from codec/dagcbor/multicodec.go `%s`: option literal of the registered codec -/\ndef registered%sOptions_src : List String := %s\n\n", fn, fn, leanStrList(opts))
+	}
+	return sb.String()
+}
+
+// ---------------------------------------------------------------------------------------------
+// fsstore: is the key escaped before it is sharded; the order of filesystem calls of a write (C17, C18)
+
+func callName(e ast.Expr) string {
+	ce, ok := e.(*ast.CallExpr)
+	if !ok {
+		return ""
+	}
+	return selectorPath(ce.Fun)
+}
+
+func genFsstoreFacts(repo string) string {
+	s := load(repo, "storage/fsstore/fsstore.go")
+	var sb strings.Builder
+	// (1) pathForKey: the argument handed to the sharding function
+	fd := s.funcDecl("Store.pathForKey")
+	escaped := false
+	shardCalls := 0
+	var keyParam string
+	for _, f := range fd.Type.Params.List {
+		for _, nm := range f.Names {
+			keyParam = nm.Name
+		}
+	}
+	reassigned := false // key = store.escapingFunc(key) seen so far
+	ast.Inspect(fd.Body, func(n ast.Node) bool {
+		switch x := n.(type) {
+		case *ast.AssignStmt:
+			if len(x.Lhs) == 1 && len(x.Rhs) == 1 {
+				if id, ok := x.Lhs[0].(*ast.Ident); ok && id.Name == keyParam && strings.HasSuffix(callName(x.Rhs[0]), ".escapingFunc") {
+					if ce := x.Rhs[0].(*ast.CallExpr); len(ce.Args) == 1 {
+						if a, ok := ce.Args[0].(*ast.Ident); ok && a.Name == keyParam {
+							reassigned = true
+						}
+					}
+				}
+			}
+		case *ast.CallExpr:
+			if strings.HasSuffix(selectorPath(x.Fun), ".shardingFunc") && len(x.Args) >= 1 {
+				shardCalls++
+				if a, ok := x.Args[0].(*ast.Ident); ok && a.Name == keyParam && reassigned {
+					escaped = true
+				}
+				if strings.HasSuffix(callName(x.Args[0]), ".escapingFunc") {
+					escaped = true
+				}
+			}
+		}
+		return true
+	})
+	if shardCalls != 1 {
+		panic(failure{fmt.Sprintf("storage/fsstore/fsstore.go pathForKey: expected exactly one shardingFunc call, found %d", shardCalls)})
+	}
+	fmt.Fprintf(&sb, "/-- generated from `Store.pathForKey`: the sharding function receives the *escaped* key -/\ndef pathForKey_shards_escaped_src : Bool := %v\n\n", escaped)
+	// (2) order of filesystem-relevant calls, per function, in source order
+	interesting := map[string]bool{"os.OpenFile": true, "os.Rename": true, "os.Remove": true, "os.Mkdir": true, "f.Close": true, "wr.Write": true,
+		"move": true, "haveDir": true, "wrCommitter": true, "store.PutStream": true, "store.pathForKey": true}
+	fmt.Fprintf(&sb, "/-- generated: per function of storage/fsstore/fsstore.go, the filesystem-relevant calls in source order -/\ndef fsCalls_src : List (String × List String) := [\n")
+	fns := []string{"Store.Put", "Store.PutStream", "move", "haveDir"}
+	for i, fn := range fns {
+		fd := s.funcDecl(fn)
+		var calls []string
+		ast.Inspect(fd.Body, func(n ast.Node) bool {
+			if ce, ok := n.(*ast.CallExpr); ok {
+				nm := selectorPath(ce.Fun)
+				if interesting[nm] {
+					calls = append(calls, nm)
+				}
+			}
+			return true
+		})
+		comma := ","
+		if i == len(fns)-1 {
+			comma = ""
+		}
+		fmt.Fprintf(&sb, "  (%q, %s)%s\n", fn, leanStrList(calls), comma)
+	}
+	sb.WriteString("]\n\n")
+	// (3) default escaping / sharding of InitDefaults
+	idf := s.funcDecl("Store.InitDefaults")
+	var args []string
+	ast.Inspect(idf.Body, func(n ast.Node) bool {
+		if ce, ok := n.(*ast.CallExpr); ok && strings.HasSuffix(selectorPath(ce.Fun), ".Init") {
+			for _, a := range ce.Args {
+				args = append(args, selectorPath(a))
+			}
+		}
+		return true
+	})
+	fmt.Fprintf(&sb, "/-- generated from `Store.InitDefaults`: arguments of Init -/\ndef initDefaults_src : List String := %s\n\n", leanStrList(args))
+	return sb.String()
+}
+
+// ---------------------------------------------------------------------------------------------
+// traversal budgets: comparison operator, constant, test-then-decrement order (C15)
+
+func genWalkFacts(repo string) string {
+	s := load(repo, "traversal/walk.go")
+	var sb strings.Builder
+	for _, fn := range []struct{ name, field string }{{"Progress.checkNodeBudget", "NodeBudget"}, {"Progress.checkLinkBudget", "LinkBudget"}} {
+		fd := s.funcDecl(fn.name)
+		var shape []string
+		ast.Inspect(fd.Body, func(n ast.Node) bool {
+			switch x := n.(type) {
+			case *ast.IfStmt:
+				if be, ok := x.Cond.(*ast.BinaryExpr); ok && strings.HasSuffix(selectorPath(be.X), "."+fn.field) {
+					shape = append(shape, "test:"+be.Op.String()+":"+selectorPath(be.Y))
+					for _, st := range x.Body.List {
+						if _, ok := st.(*ast.ReturnStmt); ok {
+							shape = append(shape, "return-error")
+						}
+					}
+				}
+			case *ast.IncDecStmt:
+				if strings.HasSuffix(selectorPath(x.X), "."+fn.field) {
+					shape = append(shape, "step:"+x.Tok.String())
+				}
+			}
+			return true
+		})
+		lean := strings.ReplaceAll(strings.ReplaceAll(fn.name, "Progress.", ""), ".", "_")
+		fmt.Fprintf(&sb, "/-- generated from traversal/walk.go `%s`: the budget test and the decrement, in source order -/\ndef %s_src : List String := %s\n\n", fn.name, lean, leanStrList(shape))
 	}
 	return sb.String()
 }
